@@ -6,7 +6,7 @@ package agent
 //
 // internal/peer/manager.go and connection.go are mechanically rewritten (every mutex, atomic,
 // channel operation, select, `go`, timer and clock read is a scheduling point; registerConnection and
-// handleDisconnect additionally get a point before every statement), so readLoop, keepaliveLoop and
+// handleDisconnect -- and, for the race scripts, DisconnectAll and Disconnect -- additionally get a point before every statement), so readLoop, keepaliveLoop and
 // drainFrames of every connection run as threads of the controlled scheduler. The agent M is the same
 // real agent as in part A (agent.New: real handlePeerConnected / handlePeerDisconnect, routing manager,
 // relay table). The transport under each connection is a harness-owned wire: frames P would send (P's
@@ -25,6 +25,13 @@ package agent
 //   sleep-redial / kick-redial : connection 0 is established and has state; the main thread calls the real
 //                     Manager.DisconnectAll() (enterSleep) / Manager.Disconnect(id), which remove it from the table and
 //                     close it; the redial registers a new connection while the old loops have not reported yet
+//   sleep-race      : M has TWO connected peers (P on connection 0 with state, Q on its stable link); the real
+//                     Manager.DisconnectAll() runs in a thread of its own (scheduling points at every lock / channel
+//                     operation and before every statement of DisconnectAll) while the redial thread registers a
+//                     fresh connection for P as soon as M closed the old transport -- i.e. possibly while DisconnectAll
+//                     is still closing the other peer; once everything is quiet the main thread registers one more
+//                     connection for P (it must be refused while a connection of P is live)
+//   kick-race       : the same with Manager.Disconnect(P) in the thread of its own
 // The main thread sleeps on the virtual clock until every other thread is blocked, evaluates the end
 // oracle, closes everything and waits for the loops.
 //
@@ -62,6 +69,12 @@ type c32Script struct {
 	// real Manager.Disconnect(id) ("disconnect") or Manager.DisconnectAll() ("disconnectall", enterSleep);
 	// the loops of connection 0 report afterwards, racing the redial.
 	Detach string
+	// Sleeper: the Detach call runs in a controlled thread of its own ("sleeper"), concurrently with the
+	// redial threads, instead of on the main thread before they start.
+	Sleeper bool
+	// Late: connections registered one after the other by the main thread once every other thread is
+	// blocked (a later dial for the same identity); evaluated by the same end oracle.
+	Late int
 }
 
 var c32Scripts = []c32Script{
@@ -79,6 +92,8 @@ var c32Scripts = []c32Script{
 	{Name: "flap-rd+wr-min", Pre: true, Fail: "rd+wr", Redials: 1, Direct: true, Open: true},
 	{Name: "sleep-redial", Pre: true, Detach: "disconnectall", Redials: 1, Direct: true, Open: true},
 	{Name: "kick-redial", Pre: true, Detach: "disconnect", Redials: 1, Direct: true, Open: true},
+	{Name: "sleep-race", Pre: true, Detach: "disconnectall", Sleeper: true, Redials: 1, Late: 1, Direct: true, Open: true},
+	{Name: "kick-race", Pre: true, Detach: "disconnect", Sleeper: true, Redials: 1, Late: 1, Direct: true, Open: true},
 }
 
 func c32ScriptByName(n string) (c32Script, bool) {
@@ -118,7 +133,7 @@ func c32SchedRunRep(r *vmc.Result, sc c32Script, timerCost int, c *vmc.Chooser, 
 	m := nt.agents[c32M]
 	mgr := m.peerMgr
 	pid, qid := nt.ids[c32P], nt.ids[c32Q]
-	nconn := sc.Dups + sc.Redials
+	nconn := sc.Dups + sc.Redials + sc.Late
 	if sc.Pre {
 		nconn++
 	}
@@ -276,11 +291,26 @@ func c32SchedRunRep(r *vmc.Result, sc c32Script, timerCost int, c *vmc.Chooser, 
 			case "clk":
 				sched.Advance(2 * interval)
 			}
-			switch sc.Detach {
-			case "disconnect":
+			switch {
+			case sc.Sleeper:
+				// The detach runs concurrently with the redial. detached[0] stays empty: whether connection 0 left
+				// the table through the detach or through its own teardown depends on the schedule, and a first
+				// report that is delayed past the re-registration is the recorded in-flight finding either way
+				// (classified by closedAt, as in the flap scripts).
+				if mgr.C32Peek(pid) == nil || mgr.C32Peek(qid) == nil {
+					r.HarnessError("C32 part B: script %s needs two connected peers (P and Q)", sc.Name)
+				}
+				sched.GoNamed("sleeper", func() {
+					if sc.Detach == "disconnect" {
+						mgr.Disconnect(pid)
+					} else {
+						mgr.DisconnectAll()
+					}
+				})
+			case sc.Detach == "disconnect":
 				detached[0] = sc.Detach
 				mgr.Disconnect(pid)
-			case "disconnectall":
+			case sc.Detach == "disconnectall":
 				detached[0] = sc.Detach
 				mgr.DisconnectAll()
 			}
@@ -303,6 +333,13 @@ func c32SchedRunRep(r *vmc.Result, sc c32Script, timerCost int, c *vmc.Chooser, 
 		}
 		// sleep until everything else is blocked (an idle scheduler fires the earliest timer for free)
 		vtime.Sleep(interval + interval/2)
+		for i := 0; i < sc.Late; i++ {
+			// a later dial for the same identity, after everything went quiet
+			k := next
+			next++
+			register(k, true)
+			vtime.Sleep(time.Nanosecond)
+		}
 		// ---- end oracle (quiescent unless the explorer let the sleep timer fire early) ----
 		peek := func() *peer.Connection { return mgr.C32Peek(pid) }
 		ob.regEnd = idx(peek())
@@ -376,12 +413,16 @@ func c32Plans(r *vmc.Result) []c32Plan {
 			// bound 0 only: with one preemption inside handleDisconnect these scripts would re-find the open
 			// known finding (cleanup callback delayed past a re-registration) under a new name
 			{"sleep-redial", 0, 2}, {"kick-redial", 0, 2},
+			// bound 2 on these is ~10^6 executions each (not completed in 10 min on one process): bound 1 in both tiers
+			{"sleep-race", 1, 2}, {"kick-race", 1, 2},
 		}
 	}
 	return []c32Plan{
 		{"dup-on-live", 1, 2}, {"flap-wr-min", 1, 2}, {"flap-rd-min", 1, 2}, {"flap-clk-min", 1, 2}, {"flap-rd+wr-min", 1, 1},
 		{"dial+accept", 1, 2}, {"flap-wr", 0, 2}, {"flap-rd", 0, 2}, {"flap-clk", 0, 2},
 		{"sleep-redial", 0, 2}, {"kick-redial", 0, 2},
+		// a witness with a preemption inside handleDisconnect is the open in-flight finding (same fingerprints)
+		{"sleep-race", 1, 2}, {"kick-race", 1, 2},
 	}
 }
 
